@@ -15,7 +15,7 @@ ASSUMPTIONS = ["version text is ASCII", "CPython int() limit of 4300 digits is o
 
 
 def correspondence(ctx):
-    n = 6000 if ctx.thorough else 1200
+    n = 25000 if ctx.thorough else 1200
     for name in A.ALL:
         stream = "order:" + name
         if not A.has_model(name):
@@ -35,7 +35,7 @@ def correspondence(ctx):
             if bi and bm and bi[1][2] == bm[1][2] and bi[1][4] == bm[1][4] and bi[0] in ("?", bm[0]):
                 continue        # '<' and '>' and the sign agree: other operators are C02's business
             ctx.disagree(stream, "vcmp %s" % name, d["impl"], d["model"], False, {"scheme": name, "a": d["a"], "b": d["b"]})
-    _laws(ctx, 40 if ctx.thorough else 22)
+    _laws(ctx, 60 if ctx.thorough else 22)
 
 
 def search(ctx):
